@@ -696,7 +696,10 @@ func parseBinOps(expr string, n *promParser.BinaryExpr) (src []Source) {
 				default:
 					side = ls
 				}
-				if ls.AlwaysReturns && rs.AlwaysReturns && ls.KnownReturn && rs.KnownReturn {
+				if n.ReturnBool && side.Returns == promParser.ValueTypeVector {
+					// `vector(x) > bool y` returns 0 or 1, never nothing; the value is no longer the one of either side.
+					side.KnownReturn = false
+				} else if ls.AlwaysReturns && rs.AlwaysReturns && ls.KnownReturn && rs.KnownReturn {
 					// Both sides always return something
 					side.ReturnedNumber, side.IsDead, side.IsDeadReason, side.IsDeadPosition = calculateStaticReturn(
 						expr,
@@ -742,7 +745,10 @@ func parseBinOps(expr string, n *promParser.BinaryExpr) (src []Source) {
 				)
 				for _, rs := range rhs {
 					rs.IsConditional, rs.IsReturnBool = checkConditions(rs, n.Op, n.ReturnBool)
-					if s.AlwaysReturns && rs.AlwaysReturns && s.KnownReturn && rs.KnownReturn {
+					if n.ReturnBool {
+						// `vector(x) > bool vector(y)` returns 0 or 1, never nothing.
+						s.KnownReturn = false
+					} else if s.AlwaysReturns && rs.AlwaysReturns && s.KnownReturn && rs.KnownReturn {
 						// Both sides always return something
 						s.ReturnedNumber, s.IsDead, s.IsDeadReason, s.IsDeadPosition = calculateStaticReturn(
 							expr,
